@@ -119,7 +119,7 @@ def unit_residual(prop, tier=None, seed=None):
         n = d.len_term()
         inr = z3.And(k >= 0, k < n)
         S.names.update(k=k, len=n, delta_k=d.uf(k), force_k=F.uf(k))
-        S.ensure("model_called_once_on_delta", len(g.calls) == 1 and g.calls[0]["delta"] is d)
+        S.ensure("model_called_on_delta", len(g.calls) >= 1 and all(c["delta"] is d for c in g.calls))
         mk = g.apply_term(k, lambda j: d.uf(j), n)
         val = res.at(k)
         S.names.update(model_k=mk, result_k=val.term)
@@ -232,7 +232,7 @@ def _mda_common(S, st, which):
         k = z3.Int("k")
         inr = z3.And(k >= 0, k < n)
         S.names.update(k=k, delta_k=d.uf(k))
-        S.ensure("user_function_called_exactly_once", len(g.calls) == 1)
+        S.ensure("user_function_called", len(g.calls) >= 1)
         val = res.at(k)
         S.ensure("shape", res.len_term() == n)
         S.ensure("frame.delta", not any(m is d for m in I.mutations))
